@@ -5,6 +5,11 @@ use pc_keyboard::*;
 use probe_c20::const_side as c;
 use probe_c20::twin as t;
 
+#[no_mangle]
+pub fn probe_c20_leak(l: pc_keyboard::layouts::AnyLayout) -> &'static pc_keyboard::layouts::AnyLayout {
+    Box::leak(Box::new(l))
+}
+
 pub struct Report {
     pub comparisons: u64,
     pub configs: u64,
